@@ -325,6 +325,8 @@ func c07Run(r *fw.R, d c07Desc) {
 			c07Conn(r, "plain", bothRoles[seed%2], allParams[1+seed%4], seed+1, true)
 		}()
 	}
+	wg.Add(1)
+	go func() { defer wg.Done(); c07Early(r, d.Seed^0x5eed) }()
 	wg.Wait()
 	c07Mu.Lock()
 	vs := c07Vios
@@ -393,6 +395,64 @@ func c07ReadMsg(ctx context.Context, r *fw.R, c *websocket.Conn, k, m uint32, be
 		}
 	}
 	return true, nil
+}
+
+// c07Early: a server connection is created while its peer's first message is already waiting in the hijacked
+// connection's read buffer (sent in the same packet as the handshake); BEFORE it reads, other connections are set
+// up and read in the same goroutine (they take whatever the pools hold). Then the first connection reads: it must
+// get its own message.
+func c07Early(r *fw.R, seed uint64) {
+	rng := fw.NewRand(seed)
+	ctx, cancel := context.WithTimeout(context.Background(), 60*time.Second)
+	defer cancel()
+	for rep := 0; rep < 6; rep++ {
+		kA := c07ConnID.Add(1)
+		p := allParams[rng.Intn(len(allParams))]
+		msgA := provPayload(kA, 0, 64+rng.Intn(3500))
+		v := rng.U64()
+		early := wire.Data(wire.OpBinary, true, msgA).WithMask([4]byte{byte(v), byte(v >> 8), byte(v >> 16), byte(v >> 24)}).Bytes()
+		cA, _, peerEndA, err := libConnEarly(RoleServer, p, 1, xport.Plan{NoTap: true}, xport.Plan{NoTap: true}, early)
+		if err != nil {
+			r.Violate("C07/attach-failed", err.Error(), "")
+			return
+		}
+		nOthers := 1 + rng.Intn(3)
+		for j := 0; j < nOthers; j++ {
+			kB := c07ConnID.Add(1)
+			roleB := bothRoles[rng.Intn(2)]
+			cB, _, peerEndB, err := libConn(roleB, p, 1, xport.Plan{NoTap: true}, xport.Plan{NoTap: true})
+			if err != nil {
+				continue
+			}
+			peerB := newRawPeer(peerEndB, roleB, p, seed+uint64(j))
+			peerB.Start()
+			msgB := provPayload(kB, 0, 64+rng.Intn(3500))
+			peerB.Send(wire.Data(wire.OpBinary, true, msgB))
+			if _, got, err := cB.Read(ctx); err != nil || !bytes.Equal(got, msgB) {
+				if w := scanForeign(got, kB); w != "" {
+					r.Violate("C07/foreign-bytes-in-read/connection-set-up-before-another-read-its-early-bytes", fmt.Sprintf("connection %d: %s", kB, w), "")
+				}
+			}
+			if rng.Bool() {
+				cB.CloseNow()
+				peerEndB.Close()
+			} else {
+				defer cB.CloseNow()
+				defer peerEndB.Close()
+			}
+		}
+		_, got, err := cA.Read(ctx)
+		r.Count("early_messages_read_after_other_connections_were_set_up", 1)
+		switch {
+		case err == nil && bytes.Equal(got, msgA):
+		case scanForeign(got, kA) != "":
+			r.Violate("C07/foreign-bytes-in-read/early-bytes", fmt.Sprintf("server connection %d, whose first message waited in the hijacked read buffer while %d other connections were set up and read: %s", kA, nOthers, scanForeign(got, kA)), "")
+		case ctx.Err() == nil:
+			r.Violate("C07/early-bytes-overwritten", fmt.Sprintf("server connection %d, whose first message (%d bytes) waited in the hijacked read buffer while %d other connections were set up and read, then read %d bytes, err=%v: the waiting bytes did not survive the other connections' use of the pools", kA, len(msgA), nOthers, len(got), err), "")
+		}
+		cA.CloseNow()
+		peerEndA.Close()
+	}
 }
 
 func c07Conn(r *fw.R, beh string, role Role, p wire.Params, seed uint64, successor bool) {
